@@ -80,16 +80,17 @@ type Sim struct {
 	tapePos int
 	replay  bool
 
-	Step      int
-	cur       *Task // task released last
-	start     time.Time
-	wallOff   map[int]time.Duration
-	pSwitch   float64
-	pLock     float64
-	pStall    float64
-	maxStall  time.Duration
-	pFreeze   float64
-	maxFreeze time.Duration
+	Step       int
+	cur        *Task // task released last
+	start      time.Time
+	wallOff    map[int]time.Duration
+	pSwitch    float64
+	pLock      float64
+	pStall     float64
+	maxStall   time.Duration
+	pFreeze    float64
+	nodeFrozen map[int]time.Time // node -> none of its tasks is scheduled before this instant (process pause)
+	maxFreeze  time.Duration
 
 	digest     uint64
 	trace      []string
@@ -383,6 +384,19 @@ func (s *Sim) KillNode(node int) {
 	s.mu.Unlock()
 }
 
+// FreezeNode pauses every task of a node for d of simulated time (a stopped process: GC pause, VM migration,
+// SIGSTOP): none of them is scheduled, timers that fire meanwhile are served afterwards.
+func (s *Sim) FreezeNode(node int, d time.Duration) {
+	s.mu.Lock()
+	if s.nodeFrozen == nil {
+		s.nodeFrozen = map[int]time.Time{}
+	}
+	s.nodeFrozen[node] = time.Now().Add(d)
+	s.Stats["fault.node-freeze"]++
+	s.logf("FREEZE node=%d %v", node, d)
+	s.mu.Unlock()
+}
+
 // ReviveNode allows new tasks on the node again (restart).
 func (s *Sim) ReviveNode(node int) {
 	s.mu.Lock()
@@ -596,9 +610,13 @@ func (s *Sim) loop() {
 		var thawed []*Task
 		var nextThaw time.Time
 		for _, t := range cands {
-			if t.frozenTo.After(now) {
-				if nextThaw.IsZero() || t.frozenTo.Before(nextThaw) {
-					nextThaw = t.frozenTo
+			until := t.frozenTo
+			if nf := s.nodeFrozen[t.Node]; nf.After(until) && !t.dead {
+				until = nf
+			}
+			if until.After(now) {
+				if nextThaw.IsZero() || until.Before(nextThaw) {
+					nextThaw = until
 				}
 				continue
 			}
